@@ -150,6 +150,22 @@ Theorem C19_history_renumber : forall h old new sn0 d0,
 Proof. exact history_renumber. Qed.
 Print Assumptions C19_history_renumber.
 
+(* learning does not depend on relaying: the I-Am-Router-To-Network handler records the announcement
+   before it relays it, so whatever the other adapters' links do (relay_ok), after any history the
+   announced destinations lead to the announcing router and nothing else changes; the exception flag
+   (second component of on_iam) is the only thing relay_ok influences *)
+Theorem C19_observed_is_learned : forall up s sn a ds,
+  fst (on_iam up s sn a ds) = update_router_info s sn a ds 0.
+Proof. exact on_iam_learns. Qed.
+Print Assumptions C19_observed_is_learned.
+
+Theorem C19_history_observed_is_learned : forall h up sn a ds,
+  exists s', fst (on_iam up (run empty h) sn a ds) = Ok s' /\ Inv s' /\
+    (forall sn0 d0, get_router_info s' sn0 d0 =
+       if (sn0 =? sn) && zmem d0 ds then Some a else get_router_info (run empty h) sn0 d0).
+Proof. exact on_iam_after_history. Qed.
+Print Assumptions C19_history_observed_is_learned.
+
 (* non-vacuity: a coherent non-empty cache, and the repaired-defect histories evaluated *)
 Example C19_example_history :
   let s := run empty [Learn 1 1 [10; 11] 0; Learn 1 2 [11; 12] 0; Learn 2 3 [10] 0] in
@@ -175,6 +191,12 @@ Example C19_example_two_owners :
 Proof. vm_compute. reflexivity. Qed.
 Example C19_example_renumber_hypothesis :
   zmem 1 (nets (run empty [Learn 1 1 [10] 0; Learn 2 2 [10] 0])) = true.
+Proof. vm_compute. reflexivity. Qed.
+(* an announcement arriving while the other adapter's link is down: learned, handler left by the exception *)
+Example C19_example_outage :
+  let r := on_iam [false] (run empty [Learn 1 1 [10] 0]) 1 2 [10; 11] in
+  (match fst r with Ok s' => (get_router_info s' 1 10, get_router_info s' 1 11) | Err _ => (None, None) end, snd r)
+  = ((Some 2, Some 2), true).
 Proof. vm_compute. reflexivity. Qed.
 (* the three repaired defects, on the model of the repaired code *)
 Example C19_example_forget_dnets_no_nameerror :
